@@ -1,8 +1,8 @@
 package main
 
 import (
-	"strings"
 	"fmt"
+	"strings"
 	"time"
 
 	"verif/harness/internal/core"
@@ -20,10 +20,10 @@ type crashHist struct {
 	idx    int
 	name   string // random / template name
 	stmts  []*proto.Stmt
-	flush  []bool // flush after statement i
+	flush  []bool              // flush after statement i
 	noise  map[int]*proto.Stmt // a statement that has to FAIL, issued right after statement i
-	reopen []bool // clean close + reopen after statement i
-	class  string // never always mixed
+	reopen []bool              // clean close + reopen after statement i
+	class  string              // never always mixed
 }
 
 func intv(i int64) proto.Val { return proto.Int(i) }
@@ -128,6 +128,11 @@ func buildCrashHist(c *core.Ctx, idx int) *crashHist {
 				cause = "create-name-too-long"
 			}
 			if fs := genFailing(r, h, cause); fs != nil && fs.st != nil && cause != "where-type" && !strings.HasPrefix(cause, "update-") {
+				if fs.st.Kind == "insert" && fs.k >= 1 && fs.k <= len(fs.st.Rows) && r.Bool() {
+					// the refused row on its own: single-row statements take
+					// other paths than multi-row ones
+					fs.st.Rows = [][]proto.Val{fs.st.Rows[fs.k-1]}
+				}
 				ch.noise[i] = fs.st
 			}
 		}
@@ -158,7 +163,7 @@ func (ch *crashHist) schedule(r *core.Rand, class int) {
 
 func checkC02(c *core.Ctx) []core.Floor {
 	c.Level = "fault_enumeration"
-	c.Rule = "seeded DDL/DML histories (10-60 statements, 1-3 tables; one statement in eight is followed by a statement that is refused - over-long names, duplicate table, type / range / size / column-count errors, repeated columns - and must leave nothing behind, also nothing that only shows when later statements are rebuilt from the log) plus scenario templates; EVERY statement boundary of every history is a crash point (image of the data directory with the timer off = state a kill -9 leaves); flush schedule per history: never / after every statement / random subset + clean reopen. Each image is recovered in a fresh process and SELECT * of every table + catalog is compared with the model after that statement; recovery is run a second time; then 3-8 further statements (with up to 2 more crash/recover cycles) are checked against the model incl. row-id rules. A sample is cross-validated with a real SIGKILL. Distinct = image (history, boundary, schedule); non-trivial = recovery actually replayed at least one log record."
+	c.Rule = "seeded DDL/DML histories (10-60 statements, 1-3 tables; one statement in eight is followed by a statement that is refused - over-long names, duplicate table, type / range / size / column-count errors, repeated columns - and must leave nothing behind, also nothing that only shows when later statements are rebuilt from the log) plus scenario templates; four histories in five have a second database next to theirs, created before or after it and sorting before or after it; EVERY statement boundary of every history is a crash point (image of the data directory with the timer off = state a kill -9 leaves); flush schedule per history: never / after every statement / random subset + clean reopen. Each image is recovered in a fresh process and SELECT * of every table + catalog is compared with the model after that statement; recovery is run a second time; then 3-8 further statements (with up to 2 more crash/recover cycles) are checked against the model incl. row-id rules. A sample is cross-validated with a real SIGKILL. Distinct = image (history, boundary, schedule); non-trivial = recovery actually replayed at least one log record."
 	c.Assume = []string{"process-death crash model: completed write(2) calls survive, as the property states", "image = copy of data/ taken between statements with the flush timer off; cross-validated against real SIGKILL on a sample"}
 	drv := mustDriver(c, false)
 	nRandom, kill := 300, 20
@@ -208,7 +213,17 @@ func crashPhase1(c *core.Ctx, drv, dir string, ch *crashHist, withImages bool, k
 	add := func(op proto.Op, m meta) { s.add(op); mt = append(mt, m) }
 	add(proto.Op{K: "cfg", N: 1}, meta{kind: "other"})
 	add(proto.Op{K: "init"}, meta{kind: "other"})
+	// a second database next to the one the history runs in, created before
+	// or after it, named so that it sorts before or after it: start-up has to
+	// recover every database from its own log, whatever the directory order
+	other := []string{"", "a0", "zz", "a0", "zz"}[ch.idx%5]
+	if other != "" && ch.idx%2 == 0 {
+		add(proto.Op{K: "sql", SQL: proto.Text("CREATE DATABASE " + other)}, meta{kind: "other"})
+	}
 	add(proto.Op{K: "sql", SQL: "CREATE DATABASE d1"}, meta{kind: "other"})
+	if other != "" && ch.idx%2 == 1 {
+		add(proto.Op{K: "sql", SQL: proto.Text("CREATE DATABASE " + other)}, meta{kind: "other"})
+	}
 	add(proto.Op{K: "sql", SQL: "USE d1"}, meta{kind: "other"})
 	for i, st := range ch.stmts {
 		add(proto.Op{K: "stmt", Stmt: st}, meta{kind: "stmt", i: i})
